@@ -72,6 +72,12 @@ func (r *Rtmp2RtspRemuxer) FeedRtmpMsg(msg base.RtmpMsg) {
 
 	switch msg.Header.MsgTypeId {
 	case base.RtmpTypeIdMetadata:
+		// metadata only guides the analysis. Once the sdp has been handed out it must not change what the audio
+		// packer is created with (it is created at the first audio frame): a later onMetaData naming another
+		// audiosamplerate / audiocodecid made the rtp clock or the payload type differ from the sdp
+		if r.analyzeDone {
+			return
+		}
 		if meta, err := rtmp.ParseMetadata(msg.Payload); err == nil {
 			if audioCodecId, ok := meta.Find("audiocodecid").(float64); ok {
 				switch uint8(audioCodecId) {
